@@ -23,8 +23,8 @@ use crate::out::{self, Case, Spec};
 use crate::rng::Rng;
 use crate::Args;
 
-/// The model the observations are compared with: `run_sacase` is the code as it is in /repo;
-/// switch to `run_sacase_fixed` (and bin/props.py `run_fn`) once proposed_fix_c16.diff is applied.
+/// The model the observations are compared with: `run_sacase_fixed` is the code as it is in
+/// /repo (after the repairs of H7, H8 and H29); `run_sacase` is the code before them.
 const RUN_FN: &str = "run_sacase_fixed";
 
 const H7: &str = "unix-path-readback-nul";
